@@ -26,7 +26,7 @@ P = {
          "Index text = s$revcomp(s)$ per sequence over the DNA alphabet with N, either case."),
  "C07": ("model-based operation histories (vec of ops + interpreter) vs. Vec model; AVL invariants read through derived Serialize after every insert",
          "Stateful generated histories of insert/find/find_mut/index on the AVL tree, array-backed tree and AnnotMap, each query compared as a multiset with a Vec model; balance/height/max invariants checked on the serialised tree after every insertion.",
-         "Intervals and queries have positive width; tree structure is observed through serde field names (if they change the check reports inconclusive, not a violation)."),
+         "Intervals and queries have positive width; tree structure is observed through serde field names (if they change the check reports inconclusive, not a violation). Thorough adds a libFuzzer campaign (target histories: the input bytes are the operation history, same interpreter and Vec model in the target)."),
  "C08": ("proptest generated (pattern, texts) + bounded-exhaustive enumeration vs. naive window scan, matcher reuse",
          "All five matchers compared with a naive scan on generated and exhaustively enumerated cases, with forced pattern lengths at the word-size limits and one matcher object reused across texts.",
          "Patterns non-empty; <=64 symbols for ShiftAnd/BNDM."),
@@ -53,13 +53,13 @@ P = {
          "Tolerance 0.5% of the largest operand (+1e-200 flush-to-zero); random lists <=200 entries, the large layer uses lists/grids up to 2^20 entries with a compensated f64 sum as the linear-space image."),
  "C16": ("proptest generated queries/histories vs. Needleman-Wunsch; operation list read through derived Serialize; graph invariants after every addition",
          "Linear-graph scores compared with textbook NW, paths re-scored, wide-band banded alignment compared, graph invariants (acyclic, monotone weights, bounded growth, consensus spelled by a path) checked after every addition of a generated history.",
-         "gap_open is the per-base penalty (gap_extend unused, as documented); symbol X excluded (built-in wildcard)."),
+         "gap_open is the per-base penalty (gap_extend unused, as documented); symbol X excluded (built-in wildcard). Thorough adds a libFuzzer campaign (target histories: fuzzer-built addition histories with the C16/history oracle in the target)."),
  "C17": ("proptest + bounded-exhaustive bit vectors vs. running counts; wavelet matrix vs. naive counting",
          "rank/select of every index of generated and exhaustively enumerated bit vectors (lengths around superblock boundaries, all densities) compared with running counts; WaveletMatrix::rank for all symbols and positions.",
          "bit vectors of length >=1, k>=1."),
  "C18": ("model-based operation histories vs. Vec models after every step",
          "Generated histories on BitEnc (all widths 1..8, values over the full u8 range), SmallInts (4 type pairs) and Fenwick trees compared with plain vectors after every operation.",
-         "BitEnc values are compared width-masked."),
+         "BitEnc values are compared width-masked. Thorough adds a libFuzzer campaign (target histories: fuzzer-built BitEnc operation histories against the Vec model)."),
  "C19": ("proptest generated alphabets/texts/patterns vs. brute-force q-gram positions, diagonal merging and O(n^2) chain DP",
          "q-gram index, exact_matches, matches, k-mer match finding and LCSk++ chaining compared with brute-force definitions, with alphabet sizes that are not powers of two.",
          "q*ceil(log2|A|)<=64; match lists handed to the chaining functions are sorted."),
